@@ -158,18 +158,28 @@ func init() {
 			var s string
 			if rapid.IntRange(0, 9).Draw(t, "long") == 0 {
 				// a long flat chain with small nested groups: hundreds of bytes, deep left recursion
-				sizes := []int{10, 15, 20, 30, 40}
+				// (more than 100 operands on one level: recursion deeper than any round number)
+				sizes := []int{10, 15, 20, 30, 40, 105, 140}
 				if thorough() {
-					sizes = append(sizes, 60, 80, 100)
+					sizes = append(sizes, 60, 80, 100, 200)
 				}
 				n := rapid.SampledFrom(sizes).Draw(t, "terms")
 				var sb strings.Builder
 				zeroFree = rapid.IntRange(0, 3).Draw(t, "zerofree") > 0
+				ops := []string{"+", "-", "*", "/", "-", "/"}
+				if n > 100 {
+					// all operands on ONE precedence level: that many nested levels of one rule
+					ops = rapid.SampledFrom([][]string{{"+", "-"}, {"*", "/"}, {"+"}, {"-"}}).Draw(t, "level")
+				}
 				for i := 0; i < n; i++ {
 					if i > 0 {
-						sb.WriteString(rapid.SampledFrom([]string{"+", "-", "*", "/", "-", "/"}).Draw(t, "lop"))
+						sb.WriteString(rapid.SampledFrom(ops).Draw(t, "lop"))
 					}
-					sb.WriteString(genExpr(t, rapid.IntRange(0, 2).Draw(t, "ld")))
+					if n > 100 {
+						sb.WriteString(genExpr(t, 0)) // plain literals keep a very long chain short in bytes
+					} else {
+						sb.WriteString(genExpr(t, rapid.IntRange(0, 2).Draw(t, "ld")))
+					}
 				}
 				zeroFree = false
 				s = sb.String()
